@@ -31,9 +31,12 @@ Trusted / modelled: float sqrt/arccos of numpy (inputs of the predicate streams 
 from the angle boundary; the oracle widens every region by 1e-9), networkx traversal orders (tied by the
 tree stream), scipy KD-tree and the LJ overlap test (opaque booleans in the model), numpy.random.
 
-Known candidate finding kept OUT of the default stream (see notes/C07_findings.md): `is_restricted`
-judges the step on the wrapped position.  Default oracle: steps that cross a box face are tallied, not
-judged.  `C07_PBC_DIRECTION=1` judges them by the minimum-image step (shape direction-across-pbc).
+Growth direction: since fix b739cad `update_positions` judges the trial step itself; the oracle judges the
+minimum-image step between parent and child residue (equal to the trial step for steps shorter than half
+a box edge), ALSO for steps that cross a box face — the generator builds short chains in small boxes for
+this.  Known finding in the default stream: a second `[ rw_restriction ]` line of a `[ molecule ]` block
+replaces the first (shape rw-restriction-overwritten, listed in known_findings.txt; a violation of the LAST
+line or of anything else is reported normally).
 """
 import fractions
 import json
@@ -458,14 +461,13 @@ def selected(item, mt, node):
     return mt["resnames"][node] == item["resname"] and item["start"] <= node + 1 < item["stop"]
 
 
-def oracle_requests(desc, cap, judge_crossing=False):
+def oracle_requests(desc, cap):
     """Build the specification requests for one finished build.  Returns (requests, judges): judges[i]
     turns answer i into None (holds) or (shape, text)."""
     reqs, judges = [], []
     box = cap["box"]
     topology, engine = cap["topology"], cap["nb"]
     crossing = 0
-    judge_crossing = judge_crossing or os.environ.get("C07_PBC_DIRECTION") == "1"
     trees = {}
     for mol_idx, mt in mol_instances(desc):
         mol = topology.molecules[mol_idx]
@@ -499,8 +501,6 @@ def oracle_requests(desc, cap, judge_crossing=False):
                     mim = [x - frac(l) * round(x / frac(l)) for x, l in zip(raw, box)]
                     if raw != mim:
                         crossing += 1
-                        if not judge_crossing:
-                            continue
                     reqs.append(dict(op="spec_dir", opt=rw_option_json(it["normal"], it["angle"]),
                                      step=[rat_str(x) for x in mim]))
 
@@ -673,9 +673,13 @@ def gen_system(rng, flavour, thorough):
         desc["options"] = dict(grid_spacing=1.0 if box > 10 else 0.5)
         return desc
     n = rng.randint(2, 10)
+    box = float(rng.choice([6, 7, 8, 10]))
+    if flavour == "dir" and rng.random() < 0.7:
+        # short chains in a small box: steps cross the box faces
+        n = rng.randint(2, 4)
+        box = float(rng.choice([2.5, 3, 3.5]))
     mt = chain_type(rng, "A", n)
     count = rng.choice([1, 1, 2])
-    box = float(rng.choice([6, 7, 8, 10]))
     items = []
     if flavour in ("geom", "mixed"):
         for _ in range(rng.randint(1, 3)):
@@ -686,8 +690,8 @@ def gen_system(rng, flavour, thorough):
         resname = rng.choice(sorted(set(mt["resnames"])))
         start = rng.randint(1, n)
         stop = rng.randint(start + 1, n + 1)
-        if os.environ.get("C07_MULTI_RW") == "1" and stop <= n:
-            # candidate finding rw-restriction-overwritten: only the last line of a block is kept
+        if rng.random() < 0.35 and stop <= n:
+            # known finding rw-restriction-overwritten: only the last line of a block is kept
             items.append(dict(kind="rw", resname=resname, start=start, stop=stop,
                               normal=[float(x) for x in normal], angle=angle))
             start, stop = stop, n + 1
@@ -810,8 +814,8 @@ def run_predicates(ctx, cases):
 
 def e2e_cases(ctx):
     rng = ctx.rng
-    flavours = ["geom", "dir", "dist", "ring", "persist", "mixed"]
-    count = ctx.budget(96, 900)
+    flavours = ["geom", "dir", "dist", "ring", "persist", "mixed", "dir"]
+    count = ctx.budget(112, 1050)
     cases = []
     for i in range(count):
         flavour = flavours[i % len(flavours)]
@@ -837,7 +841,7 @@ def run_e2e(ctx, cases, timeout=None):
             if status.startswith("error") and not cap.get("error", "").startswith("Sampling the end-to-end"):
                 ctx.tally(build_error=cap.get("error", "")[:80])
             continue
-        rq, judges, crossing = oracle_requests(desc, cap, bool(case.get("judge_crossing")))
+        rq, judges, crossing = oracle_requests(desc, cap)
         # correspondence inside the build: the tree and the stored restraints of every molecule
         topology = cap["topology"]
         extra = []
@@ -899,7 +903,7 @@ def run_e2e(ctx, cases, timeout=None):
                              checks=checked),
                  flavour=case["flavour"], build="ok", e2e_checks=min(checked, 20))
         if crossing:
-            ctx.tally(direction_steps_across_pbc_not_judged=crossing)
+            ctx.tally(direction_steps_across_pbc_judged=min(crossing, 5))
 
 
 def min_image(a, b, box):
@@ -944,8 +948,10 @@ def run(ctx):
         "build-file selection = residue name and resid in [start, stop) as np.arange(start, stop) does",
         "ring theorem: residue graph of a ring whose bonds are listed (i,i+1) then (n-1,0), grown from residue 0; "
         "other bond orders are covered by the end-to-end oracle and the tree stream",
-        "growth direction across a box face is not judged in the default stream (candidate finding "
-        "direction-across-pbc, notes/C07_findings.md; C07_PBC_DIRECTION=1 judges it)",
+        "growth direction = minimum-image step between parent and child residue (the trial step for steps "
+        "shorter than half a box edge); steps across box faces are judged (fix b739cad)",
+        "known finding rw-restriction-overwritten (known_findings.txt): of several rw_restriction lines only "
+        "the last is applied",
         "builds that do not terminate within the time limit (infeasible restraint mix) are counted, not judged"]
     ctx.extra["explanation"] = ("C07_cycle_closing depends on Tables.searchTreeIfDfs = \"dfs_tree\" (translated from "
                                 "MetaMolecule.search_tree on every run)")
